@@ -19,7 +19,7 @@ Kronecker product), `List.Sublist`, `List.finRange`-indexed filters, the table p
 writer-side predicates `GoodTok` / `GoodRow` / `RectTable` (any `N ≥ 0`, `n ≥ 1`) / `BigTable` (targets only)
 (`QV/Lemmas/DataLoad.lean`).
 
-Gap round: the loaders are modelled AFTER the proposed fix F16 (`proposed/F16_loadtxt_ndmin.diff`: samples and
+Gap round: the loaders are modelled with fix F18 (`proposed/F18_loadtxt_ndmin.diff`, applied in /repo e29340c: samples and
 per-sample bases read with `ndmin=2`), so the round-trip theorems hold for one-sample and one-site files too;
 `C19_position_k(_states)` name the "position k of every array the library produces" clause on the generated space
 (`overSpace`, `overSpace2`, executed by driver op `c19.arrays`); `QV.Model.HilbertInt` gives the int64 outcome
@@ -373,7 +373,7 @@ theorem C19_numeric_table_bad_token {ν : Type} (parse : Token → Option ν) (r
     loadtxtNum parse round (printTable rows) = .error .ValueError := by
   rw [loadtxtNum, tokenize_printTable rows h, convertRows_bad parse round rows hbad]
 
-/-- **C19.7f** (F16) `np.loadtxt(dtype=str, ndmin=2)` — the `tr_bases_path` call — of ANY printed rectangular
+/-- **C19.7f** (F18) `np.loadtxt(dtype=str, ndmin=2)` — the `tr_bases_path` call — of ANY printed rectangular
 table, `N ≥ 0` rows and `m ≥ 1` columns, is the 2-D array of the tokens: one-row and one-column files keep
 their shapes `(1, m)` / `(N, 1)`. (A squeezing read — the call without `ndmin=2` — falsifies this for `N = 1`
 and for `m = 1`, see `C19_table_squeezed`.) -/
@@ -423,11 +423,13 @@ theorem loadBases_written {ν : Type} (B U : Option (List (List Token))) (mB mU 
     | some X => simp [optStr, loadtxtStr_true_rect X mU (hU X rfl)]
   simp only [loadBases, h2, h1, basesItems]
 
-/-- **C19.8b** `load_data` on printed files, ANY number of samples `N ≥ 0` and sites `n ≥ 1` (F16: no `BigTable`
+/-- **C19.8b** `load_data` on printed files, ANY number of samples `N ≥ 0` and sites `n ≥ 1` (F18: no `BigTable`
 hypothesis on the samples and per-sample bases; the target `P` is a `2^n × 2` table, hence `BigTable`): the outputs
 are, in this order, the samples as the `(N, n)` array of the rounded values, then — only if given — the target
 as the `2 × N` real-pair layout (row 0 = first column, row 1 = second column of the psi file), the per-sample
-bases as the `(N, n)` array, the list of bases; nothing else. -/
+bases as the `(N, n)` array, the list of bases; nothing else.
+(Tie to the code: `N ≥ 1`. For an EMPTY samples file numpy returns shape `(0, 1)` whatever `n` is, the model `.mat []`;
+the harness treats empty files as malformed input.) -/
 theorem C19_load_data_roundtrip {ν : Type} [Inhabited ν] (parse : Token → Option ν) (round : ν → ν)
     (val : Token → ν) (S : List (List Token)) (P B U : Option (List (List Token))) (n mU : ℕ)
     (hS : RectTable S n) (hP : ∀ T ∈ P, BigTable T) (hB : ∀ T ∈ B, RectTable T n) (hU : ∀ T ∈ U, RectTable T mU)
@@ -459,7 +461,7 @@ theorem C19_load_data_roundtrip {ν : Type} [Inhabited ν] (parse : Token → Op
 
 /-- **C19.8b'** the shape clause made explicit: for `N ≥ 1` samples of `n` sites the first output of `load_data`
 has shape `(N, n)` and the per-sample bases (when given) have shape `(N, n)` — in particular for a single sample
-and for a single site. (Before F16: shape `(n,)` resp. `(N,)`.) -/
+and for a single site. (Before F18: shape `(n,)` resp. `(N,)`.) -/
 theorem C19_load_data_shape {ν : Type} [Inhabited ν] (parse : Token → Option ν) (round : ν → ν)
     (val : Token → ν) (S B : List (List Token)) (n : ℕ) (hS : RectTable S n) (hB : RectTable B n) (hN : S ≠ [])
     (hNB : B.length = S.length) (hpS : ∀ r ∈ S, ∀ t ∈ r, parse t = some (val t)) :
@@ -571,10 +573,10 @@ theorem C19_refbasis_errors {τ : Type} (samples : Arr τ) :
   refine ⟨fun _ => rfl, fun _ => rfl, fun rows bases hne => ?_⟩
   simp [extractRefbasis, hne]
 
-/-- **C19.9c** (F16) end to end: files of `N ≥ 1` samples on `n ≥ 1` sites and their `N` basis rows, loaded with
+/-- **C19.9c** (F18) end to end: files of `N ≥ 1` samples on `n ≥ 1` sites and their `N` basis rows, loaded with
 `load_data` and handed to `extract_refbasis_samples`, give — for EVERY `N` and `n`, in particular a single sample or
 a single site — the loaded sample rows whose basis row is all `"Z"`, in order; never an `IndexError`.
-(Before F16 the one-row and one-column cases lost their 2-D shape and ended in `C19_refbasis_errors`.) -/
+(Before F18 the one-row and one-column cases lost their 2-D shape and ended in `C19_refbasis_errors`.) -/
 theorem C19_load_then_refbasis {ν : Type} [Inhabited ν] (parse : Token → Option ν) (round : ν → ν)
     (val : Token → ν) (S B : List (List Token)) (n : ℕ) (hS : RectTable S n) (hB : RectTable B n)
     (hNB : S.length = B.length) (hpS : ∀ r ∈ S, ∀ t ∈ r, parse t = some (val t)) :
@@ -621,7 +623,7 @@ example : extractRefbasis (.mat [[1, 0], [0, 1], [1, 1], [0, 0]])
     (.mat [[['Z'], ['Z']], [['X'], ['Z']], [['Z'], ['Z']], [['Z', 'Z'], ['Z']]])
     = .ok (.mat [[1, 0], [1, 1]]) := by decide
 
-/-- F16: a single sample of three sites and three samples of a single site keep their 2-D shapes. -/
+/-- F18: a single sample of three sites and three samples of a single site keep their 2-D shapes. -/
 example : loadData (ν := Nat) (fun t => if t = ['1'] then some 1 else if t = ['0'] then some 0 else none) id
     ['1', ' ', '0', ' ', '1', '\n'] none (some ['Z', ' ', 'Z', ' ', 'Z', '\n']) none
     = .ok [Item.num (.mat [[1, 0, 1]]), Item.str (.mat [[['Z'], ['Z'], ['Z']]])] := by decide
